@@ -643,3 +643,7 @@ impl<'a> RequestExecutionParams<'a> {
         last_error.map(Result::Err)
     }
 }
+
+// Verification hook (inert unless built by `cargo kani`, which sets --cfg kani).
+#[cfg(kani)]
+mod verif_kani;
